@@ -7,7 +7,7 @@ Open Scope N_scope.
 
 (* A field of a record type.  class: 0 scalar, 1 optional child (pointer or
    interface), 2 list of children (slice).  f_static: the kinds that the Go
-   type of the field admits. *)
+   type of the field allows. *)
 Record field := mkField { f_id : N; f_name : list N; f_class : N; f_static : list N }.
 
 Record kind_decl := mkKind {
